@@ -67,6 +67,18 @@ func runChildren(jobs []attackctl.Job, par int) []attackctl.Outcome {
 					}
 				}
 				err := cmd.Wait()
+				if ee, ok := err.(*exec.ExitError); ok && ee.ExitCode() == attackctl.ExitDirty {
+					// the child refused to start the next job in a process that still had goroutines of an
+					// earlier (inconclusive) run: continue with a fresh process
+					if done == 0 {
+						mu.Lock()
+						outs = append(outs, attackctl.Outcome{Job: rest[0], Unquiet: true})
+						mu.Unlock()
+						done = 1
+					}
+					rest = rest[done:]
+					continue
+				}
 				if err != nil && done < len(rest) {
 					// the child died while running job `done`: a crash of the real code (e.g. send on closed channel)
 					j := rest[done]
